@@ -30,8 +30,22 @@ def _setup_symbolic():
     # enum keys in dict comprehensions: keep them as plain dict keys (hash by identity)
     if EnergyType not in oi.ATOMIC_IMMUTABLE_TYPES:
         oi.ATOMIC_IMMUTABLE_TYPES = oi.ATOMIC_IMMUTABLE_TYPES + (EnergyType,)
+    import crosshair.core_and_libs  # noqa: performs the library registrations (which are then overridden below)
+    import crosshair.core as core
+
+    # Argument creation without CrossHair's "premature realization" heuristic: by default every int / bool / float
+    # argument sits behind a ParallelNode offering a concretely sampled value as an alternative to the symbolic one.
+    # Paths that touch real-modelled floats are capped at UNKNOWN, and a ParallelNode whose symbolic side is UNKNOWN
+    # is only exhausted when the sampling side is exhausted too -- which never happens.  Arguments are plain
+    # symbolic values here; the searches either exhaust or are reported inconclusive.
+    core._SIMPLE_PROXIES[int] = lambda creator, *a: bl.SymbolicBoundedInt(creator.varname, creator.pytype)
+    core._SIMPLE_PROXIES[bool] = lambda creator, *a: bl.SymbolicBool(creator.varname, creator.pytype)
     if FLOAT_MODEL == "real":
         bl._PYTYPE_TO_WRAPPER_TYPE[float] = ((bl.RealBasedSymbolicFloat, 1.0),)
+        # float ARGUMENTS range over finite reals: the default creator also forks every float argument four ways
+        # (finite / nan / -inf / +inf); every harness bounds its float arguments, so the three special values were
+        # only ever rejected by the preconditions -- at a cost of 4^k trivial paths
+        core._SIMPLE_PROXIES[float] = lambda creator, *a: bl.RealBasedSymbolicFloat(creator.varname, creator.pytype)
     elif FLOAT_MODEL == "ieee":
         bl._PYTYPE_TO_WRAPPER_TYPE[float] = ((bl.PreciseIeeeSymbolicFloat, 1.0),)
 
